@@ -30,6 +30,11 @@ inductive TSrc where
   | interval (delay : Option Nat) (period : Nat)   -- interval / interval_at
   | timer (v : Val) (dur : Nat)
   | iterc (n : Nat)                                  -- from_iter over a counting iterator 0..n
+  /-- from_future (`res = false`) / from_future_result (`res = true`) over a scripted future. -/
+  | future (res : Bool) (script : List AStep)
+  /-- from_stream / from_stream_result over a scripted stream; `cyc`: the script
+      starts over when it runs out (an unbounded stream). -/
+  | stream (res : Bool) (script : List AStep) (cyc : Bool)
 
 /-- One operator of the chain with its per-subscription state. -/
 inductive Stage where
@@ -170,7 +175,8 @@ structure TW where
   terminated : List Nat := []       -- subjects whose observer list was taken
   subscribed : Bool := false        -- the case's `sub` has happened
   unsubscribed : Bool := false      -- … and its `unsub`
-  pulls : Nat := 0                  -- items pulled from the counting iterator (`iterc`)
+  pulls : Nat := 0                  -- items pulled from the counting iterator (`iterc`) / yielded by the scripted stream
+  srcRest : List AStep := []        -- future / stream source: the steps its script has not played yet
   log : List Notif := []
 
 namespace TW
@@ -210,6 +216,14 @@ def subscribeSource (w : TW) : TW :=
           else if k < n then loop fuel (k + 1) ({ w with pulls := w.pulls + 1 }.push 0 [.next (.int k)])
           else w.push 0 [.complete]
       loop (n + 1) 0 w
+  | .future _ script =>
+      -- `scheduler.schedule(FutureTask::new(future, item_task / result_task, observer), None)`
+      let (s1, h) := w.sched.scheduleOnce .futureSrc none
+      { w with sched := s1, srcTask := some h, srcRest := script }
+  | .stream _ script _ =>
+      -- `scheduler.schedule((Try)StreamObserverFuture { stream, observer }, None)`
+      let (s1, h) := w.sched.scheduleOnce .streamSrc none
+      { w with sched := s1, srcTask := some h, srcRest := script }
 
 /-- Deliver notifications to the second input of the two-input cell at stage `j`. -/
 def pushB (w : TW) (j : Nat) (ns : List Notif) : TW :=
@@ -233,6 +247,8 @@ def subscribeNotifier (w : TW) (j : Nat) : TW :=
           let (s1, h) := w.sched.scheduleOnce (.emit j (.next v)) (some dur)   -- not generated
           { w with sched := s1 }.setStage j (.op2n st nsrc false (some h))
       | .iterc _ => w
+      | .future _ _ => w        -- async sources in notifier position: not generated
+      | .stream _ _ _ => w
   | _ => w
 
 /-- `actual_subscribe` of the stages below index `j` (stage j-1 first, then j-2 …),
@@ -286,6 +302,62 @@ def runBody (w : TW) (b : Body) : TW :=
   | .tick => w   -- handled by `runTick`
   | .bufTick _ => w
   | .tickN _ => w
+  | .futureSrc => w   -- handled by `runAsync`
+  | .streamSrc => w
+
+/-- `FutureTask::poll` of the from_future / from_future_result source: poll the
+    future; `Ready(v)` runs `item_task` (`next v; complete`) resp. `result_task`
+    (`Ok v` the same, `Err e` → `error e`); `Pending` is handed on. -/
+def pollFuture (w : TW) (res : Bool) : TW × AOut :=
+  match w.srcRest with
+  | [] => (w, .pending false)
+  | .hang :: _ => (w, .pending false)
+  | .pending :: r => ({ w with srcRest := r }, .pending true)
+  | .ready v :: r => ({ w with srcRest := r }.push 0 [.next v, .complete], .done)
+  | .err e :: r =>
+      let w1 := { w with srcRest := r }
+      (if res then w1.push 0 [.error e] else w1.push 0 [.next (.int e), .complete], .done)
+
+/-- The driver loop of from_stream.rs / from_stream_result.rs over the steps the
+    script still holds: `loop { poll_next; Some(v) → next v; Some(Err e) → error e,
+    Ready; None → complete, Ready; Pending → return Pending }`.  The `None` case is
+    reported as `.exhausted` (the caller decides whether the script starts over).
+
+    FIXED behaviour (DESIGN §7 finding 18; like `from_iter`): at the top of every
+    iteration the driver asks `observer.is_finished()` and retires (drops the
+    observer, returns Ready) when nobody listens any more.  The code as it stands
+    in /repo never asks, keeps draining the stream and never retires on an
+    unbounded one: see `vlib/props/c16.py`. -/
+def streamLap (res : Bool) : List AStep → TW → TW × AOut
+  | [], w => ({ w with srcRest := [] }, if fin w.stages then .done else .exhausted)
+  | st :: r, w =>
+    if fin w.stages then ({ w with srcRest := st :: r }, .done)
+    else
+      match st with
+      | .ready v => streamLap res r ({ w with pulls := w.pulls + 1 }.push 0 [.next v])
+      | .err e =>
+          if res then ({ w with pulls := w.pulls + 1, srcRest := r }.push 0 [.error e], .done)
+          else streamLap res r ({ w with pulls := w.pulls + 1 }.push 0 [.next (.int e)])
+      | .pending => ({ w with srcRest := r }, .pending true)
+      | .hang => ({ w with srcRest := st :: r }, .pending false)
+
+/-- One `poll` of the stream driver: laps over the script (`fuel` bounds the laps
+    of a cyclic script; a non-cyclic one needs a single lap). -/
+def pollStream (res : Bool) (script : List AStep) (cyc : Bool) : Nat → TW → TW × AOut
+  | 0, w => (w, .pending false)
+  | f + 1, w =>
+    match streamLap res w.srcRest w with
+    | (w1, .exhausted) =>
+        if cyc && !script.isEmpty then pollStream res script cyc f { w1 with srcRest := script }
+        else (w1.push 0 [.complete], .done)
+    | r => r
+
+/-- The `poll` of an async task body (the ones that may answer `Pending` themselves). -/
+def runAsync (w : TW) (b : Body) : TW × AOut :=
+  match b, w.src with
+  | .futureSrc, .future res _ => w.pollFuture res
+  | .streamSrc, .stream res script cyc => pollStream res script cyc 10000 w
+  | _, _ => (w, .done)
 
 /-- A RepeatTask tick: returns the new world and whether the task continues. -/
 def runTick (w : TW) (b : Body) (seq : Nat) : TW × Bool :=
@@ -313,8 +385,15 @@ def pollTask (w : TW) (k : TaskId) : TW :=
   match p with
   | .none => w
   | .runOnce b =>
-      let w1 := w.runBody b
-      { w1 with sched := w1.sched.finishOnce k }
+      if b.isAsync then
+        -- FutureTask / stream driver: `Ready` stores the value in the handle, `Pending`
+        -- leaves the task in the queue (ready again iff it woke itself)
+        match w.runAsync b with
+        | (w1, .pending wk) => { w1 with sched := w1.sched.stayPending k wk }
+        | (w1, _) => { w1 with sched := w1.sched.finishOnce k }
+      else
+        let w1 := w.runBody b
+        { w1 with sched := w1.sched.finishOnce k }
   | .runTick b seq =>
       let (w1, cont) := w.runTick b seq
       if cont then { w1 with sched := w1.sched.continueRepeat k }
